@@ -322,9 +322,17 @@ func init() {
 			// a Subscribe whose context is already cancelled, alongside a Publish or a Close
 			if deco < 2 {
 				for _, cons := range []string{"ack", "nack1"} {
-					add(reg.Quick, 1, spec{Cfg: cfg, Deco: deco, Consumer: cons, Actors: "deadctx+pub", C: -1}, -1)
+					tier := reg.Quick
+					if cons == "nack1" && deco == 1 { // (keeps the quick tier well inside its budget)
+						tier = reg.Thorough
+					}
+					add(tier, 1, spec{Cfg: cfg, Deco: deco, Consumer: cons, Actors: "deadctx+pub", C: -1}, -1)
 				}
-				add(reg.Quick, 1, spec{Cfg: cfg, Deco: deco, Consumer: "hold", Actors: "deadctx+pub+close", C: 0}, 1)
+				tier := reg.Quick
+				if deco == 1 && cfg.Buf > 0 {
+					tier = reg.Thorough
+				}
+				add(tier, 1, spec{Cfg: cfg, Deco: deco, Consumer: "hold", Actors: "deadctx+pub+close", C: 0}, 1)
 			}
 			for _, a := range noPub {
 				tier := a.tier
